@@ -1043,8 +1043,10 @@ class Deferred(Awaitable[_SelfResultT]):
             if current.paused:
                 # This Deferred isn't going to produce a result at all.  All the
                 # Deferreds up the chain waiting on it will just have to...
-                # wait.
-                return
+                # wait.  The Deferreds below it in the chain (the ones it was
+                # waiting on) still have their own remaining callbacks to run.
+                chain.pop()
+                continue
 
             finished = True
             current._chainedTo = None
